@@ -249,8 +249,11 @@ def run_cbmc(q, gb, wd):
     cmd = cbmc_cmd(q, gb)
     r.cmd = ' '.join(cmd).replace(wd, '$WD')
     outp = os.path.join(wd, 'cbmc.json')
+    tmo = q.timeout
+    if os.environ.get('VF_MAX_TIMEOUT'):
+        tmo = min(tmo, int(os.environ['VF_MAX_TIMEOUT']))
     rc, _, wall = sh(['/usr/bin/env', 'VF_RSS_FILE=' + os.path.join(wd, 'rss.txt'), sys.executable,
-                      os.path.join(VERIF, 'vflib', 'rsswrap.py')] + cmd, timeout=q.timeout,
+                      os.path.join(VERIF, 'vflib', 'rsswrap.py')] + cmd, timeout=tmo,
                      mem_gb=q.mem_gb, out=outp, err=os.path.join(wd, 'cbmc.err'))
     r.wall = wall
     try:
@@ -259,7 +262,7 @@ def run_cbmc(q, gb, wd):
         pass
     if rc == -9:
         r.status = 'INCONCLUSIVE'
-        r.detail = 'timeout after %ds' % q.timeout
+        r.detail = 'timeout after %ds' % tmo
         return r
     try:
         data = json.load(open(outp, errors='replace'))
